@@ -54,14 +54,21 @@ func (x *gen) sweepMembers(emit func(item)) (kinds, members, unreachable int) {
 			if m.Owner != "" && swept[dk] >= 2 {
 				continue
 			}
-			// argument classes: 0 plain first spellings, 1 zero values, 2..3 awkward spellings
+			// argument classes: 0 plain first spellings, 1 zero values, 2..3 awkward spellings,
+			// 4.. (members with string arguments) strings that look like another literal kind
 			variants := 1
 			if len(m.In) > 0 {
 				variants = 4
+				if takesString(m) {
+					variants += len(lookalikes)
+				}
 			}
 			got := false
 			for v := 0; v < variants; v++ {
-				x.rich, x.zero = v > 1, v == 1
+				x.rich, x.zero, x.look = v == 2 || v == 3, v == 1, 0
+				if v >= 4 {
+					x.look = v - 3
+				}
 				var nodeVars []string
 				if strings.HasPrefix(prefix, "var o = ") {
 					nodeVars = []string{"o"}
@@ -82,7 +89,7 @@ func (x *gen) sweepMembers(emit func(item)) (kinds, members, unreachable int) {
 				got = true
 				emit(item{Cls: "member", Edge: src, Src: s + "\n", Tag: describeMember(k, m)})
 			}
-			x.rich, x.zero = false, false
+			x.rich, x.zero, x.look = false, false, 0
 			if got {
 				members++
 				swept[dk]++
@@ -90,6 +97,51 @@ func (x *gen) sweepMembers(emit func(item)) (kinds, members, unreachable int) {
 		}
 	}
 	return
+}
+
+func takesString(m member) bool {
+	for i, t := range m.In {
+		if m.Variadic && i == len(m.In)-1 {
+			t = t.Elem()
+		}
+		if t == stringType || t == ifaceType {
+			return true
+		}
+	}
+	return false
+}
+
+// eolVariants: the same script as a file with other line endings - CRLF (saved on Windows),
+// CR only, and mixed.  Line ends between tokens are white space; line ends INSIDE string
+// literals, references, regexes and comments are part of the token: the law is that token
+// values are unchanged, byte for byte, by Format.
+func eolVariants(it item, emit func(item)) {
+	if !strings.Contains(it.Src, "\n") || strings.Contains(it.Src, "\r") {
+		return
+	}
+	mk := func(name, src string) {
+		v := it
+		v.Cls, v.Src, v.Tag, v.Want = "eol", src, it.Tag+"+"+name, nil
+		emit(v)
+	}
+	mk("crlf", strings.ReplaceAll(it.Src, "\n", "\r\n"))
+	mk("cr", strings.ReplaceAll(it.Src, "\n", "\r"))
+	// mixed: every second line end is CRLF
+	var b strings.Builder
+	k := 0
+	for _, c := range it.Src {
+		if c == '\n' {
+			if k%2 == 0 {
+				b.WriteString("\r\n")
+			} else {
+				b.WriteString("\n")
+			}
+			k++
+			continue
+		}
+		b.WriteRune(c)
+	}
+	mk("mixed", b.String())
 }
 
 func (x *gen) sweepLiterals(emit func(item)) {
@@ -165,6 +217,9 @@ var handScripts = []item{
 	{Tag: "comment:before-lambda", Edge: "stream", Src: "stream\n    |from()\n    |where(\n        // the predicate\n        lambda: \"a\" > 1)\n"},
 	{Tag: "comment:dbrp", Edge: "stream", Src: "// which data\ndbrp \"telegraf\".\"autogen\"\n\nstream\n    |from()\n"},
 	{Tag: "dbrp:two", Edge: "stream", Src: "dbrp \"a\".\"b\"\ndbrp \"c d\".\"e\\\"f\"\nstream|from()\n"},
+	{Tag: "eol:crlf-multiline-strings", Edge: "batch", Src: "// saved on Windows\r\nbatch\r\n    |query('''SELECT mean(\"v\")\r\n  FROM \"db\".\"rp\".\"m\"\r\n  WHERE \"h\" = 'a' ''')\r\n        .period(10s)\r\n        .every(10s)\r\n    |alert()\r\n        .message('line one\r\nline two')\r\n        .details('''<b>\r\n{{ .ID }}\r\n</b>''')\r\n        .crit(lambda: \"mean\" > 1)\r\n"},
+	{Tag: "eol:control-chars-in-comments", Edge: "stream", Src: "// tab\there\r\n// cr\rinside\n//\ttab first\nstream\n    // trailing cr\r\n    |from()\n"},
+	{Tag: "eol:control-chars-in-tokens", Edge: "stream", Src: "stream\n    |from()\n    |where(lambda: \"a\tb\" =~ /x\ty/ AND \"c\rd\" != 'e\tf\rg' AND \"h\r\ni\" == '''j\r\n\tk''')\n"},
 	{Tag: "layout:one-line", Edge: "stream", Src: "stream|from().measurement('m').groupBy('a','b')|window().period(10s).every(5s)|mean('v').as('m')|alert().crit(lambda:\"m\">1).log('/tmp/x')"},
 	{Tag: "layout:crlf", Edge: "stream", Src: "stream\r\n    |from()\r\n        .measurement('m')\r\n"},
 	{Tag: "layout:tabs", Edge: "stream", Src: "stream\n\t|from()\n\t\t.measurement('m')\n\t|window()\n\t\t.period(10s)\n\t\t.every(10s)\n"},
